@@ -922,3 +922,28 @@ Example C03_burst_arrival_nonvacuous :
       length (burst_recs w0 (Mkdir ba_d :: ba_rest)) = 4%nat /\
       (forall x, alookup beqb x (replay true pR (tree_of true pR w0) ba_events) = alookup beqb x (tree_of true pR wn)).
 Proof. exact arrival_example_stream. Qed.
+
+(* the arrival burst on the Pipeline model: AOp (mkdir p); AOp ... (below p); ARead 1 (the one record); any ticks / queue_events
+   calls; the delay; queue_events until the buffer is empty ([burst_hist] with the cut [1]).  The run does not crash, every
+   queued event is justified (sound_along), the replay invariant of the accumulated stream is kept, the state is synchronised,
+   covered and idle again - so arrival bursts, file-level bursts and single blocks can alternate. *)
+Theorem C03_burst_arrival_pipeline : forall P, pc_filter P = None -> let C := pc_reader P in c_faults C = [] -> c_fix_simulate C = true ->
+  forall s p rest L recs t0,
+  RSync C (p_world s) (p_k s) (p_r s) -> buffer_idle (p_buf s) -> p_stopped s = false ->
+  (forall id, In id (map fst (p_tbl s)) -> (id < p_next s)%N) ->
+  npath p -> c_recursive C = true -> scope C p -> N.land IN_CREATE (c_mask C) <> 0%N -> Forall (below_op p) rest ->
+  forall w1, apply_op (p_world s) (Mkdir p) = Some w1 -> Forall tick_or_emit L ->
+  TInv (c_recursive C) (c_root C) (replay (c_recursive C) (c_root C) t0 (p_out s)) (p_world s) ->
+  exists nit s' obs, prun P s (burst_hist P (Mkdir p :: rest) [1%nat] L nit) [] = Done (s', obs) /\
+    sound_along P s recs (burst_hist P (Mkdir p :: rest) [1%nat] L nit) = true /\
+    p_world s' = snd (burst_end (p_k s) (p_world s) (Mkdir p :: rest)) /\
+    TInv (c_recursive C) (c_root C) (replay (c_recursive C) (c_root C) t0 (p_out s')) (p_world s') /\
+    RSync C (p_world s') (p_k s') (p_r s') /\ Cover C (w_fs (p_world s')) (p_k s') (p_r s') /\
+    buffer_idle (p_buf s') /\ p_stopped s' = false /\ (forall id, In id (map fst (p_tbl s')) -> (id < p_next s')%N).
+Proof. exact arrival_pipeline. Qed.
+Print Assumptions C03_burst_arrival_pipeline.
+
+Example C03_burst_arrival_pipeline_nonvacuous :
+  exists s0 s obs, pinit (Px true) w0 = Some s0 /\ prun (Px true) s0 ba_history [] = Done (s, obs) /\
+    p_out s = ba_events /\ sound_along (Px true) s0 [] ba_history = true /\ length (k_watches (p_k s)) = 3%nat.
+Proof. exact arrival_pipeline_example. Qed.
